@@ -11,6 +11,7 @@ import EinoV.Proofs.C02Run
 import EinoV.Proofs.C02Compile
 import EinoV.Proofs.C02Eager
 import EinoV.Proofs.C02Just
+import EinoV.Proofs.C02Complete
 import EinoV.Gen.FactsC02
 import EinoV.Expected.C02
 import EinoV.Proofs.C02Workflow
@@ -188,6 +189,28 @@ theorem dag_result_is_end_input {V} (ops : ValOps V) (r : Runner V) (wf : DagWF 
     (hf : sched.Fair) (x v : V) (h : (runS ops r sched x).result = .ok v) :
     Justified ops r (histOf r x (runS ops r sched x).trace.reverse) END v :=
   (run_justified ops r wf sched hf x).2 v h
+
+open EinoV.Engine.DagRun in
+/-- **dag_enabled_nodes_start** (the converse of `dag_starts_are_justified`).  In a run of a
+    well-formed acyclic all-predecessor runner (`DagWF`, and `DagWF2`: every declared predecessor
+    lists the node among its control / data successors, every key with control predecessors is a
+    node), under any fair completion schedule: at every step, every node that is *enabled* by
+    the completions of the older steps — it has control predecessors, each of them completed or
+    is skipped, at least one completed and routed to it, every data predecessor completed or is
+    skipped (`Spec/DagStatus.lean`, `Enabled`) — is among the tasks started by then.  Together
+    with at-most-once and justification: a node with control predecessors executes exactly once,
+    exactly when it is enabled, as long as the run goes on.  (Nodes with data predecessors only
+    are outside `Enabled`; the eager loop is not covered by this theorem.) -/
+theorem dag_enabled_nodes_start {V} (ops : ValOps V) (r : Runner V) (wf : DagWF r) (wf2 : DagWF2 r)
+    (sched : Sched V) (hf : sched.Fair) (x : V) : CompTr r x (runS ops r sched x).trace.reverse :=
+  run_complete ops r wf wf2 sched hf x
+
+open EinoV.Engine.DagRun in
+/-- **dag_wf2_check_sound.** The second executable check the oracle evaluates on every generated
+    all-predecessor case implies `DagWF2`. -/
+theorem dag_wf2_check_sound {V} (r : Runner V) (h : dagWF2b r = true) : DagWF2 r := dagWF2b_sound r h
+
+example : EinoV.Engine.DagRun.dagWF2b (compile 0 gDiamond) = true := by decide
 
 /-! the justification predicate discriminates: on the diamond, with `a`'s output 3 (odd: the
     branch selects `c` and `d`), starting the deselected `b` is NOT justified -/
